@@ -33,6 +33,7 @@ def refusalName : Refusal → String
   | .carveFreelistsWithoutCarve => "carveFreelistsWithoutCarve"
   | .exportNeedsDirectory => "exportNeedsDirectory"
   | .prefixNeedsDirectory => "prefixNeedsDirectory"
+  | .prefixHasSeparator => "prefixHasSeparator"
   | .cannotCreateDirectory => "cannotCreateDirectory"
   | .cannotCreateSubDirectory => "cannotCreateSubDirectory"
   | .sqliteFileMissing => "sqliteFileMissing"
